@@ -6,49 +6,111 @@
 (* At any instant a block has at most one owner; a freed block becomes available   *)
 (* again exactly once; internal list nodes are never dereferenced after they were  *)
 (* freed; at quiescence nothing is lost and the pool's counters add up.            *)
+(*                                                                                 *)
+(* Every way to obtain blocks (allocate, allocate_with_hint, allocate_bulk_*,      *)
+(* a PooledBuffer of a global pool ...) is an Alloc of this contract, every way to *)
+(* give them back (deallocate, deallocate_with_zero, dropping a RAII guard) is a   *)
+(* Free: twins share the action of their sibling.                                  *)
 EXTENDS Naturals, Sequences, FiniteSets
 
 VARIABLES owner,     \* function address -> owning thread (domain = blocks currently owned)
-          seen,      \* every address ever handed out
-          nodes      \* heap nodes of an internal list that currently exist (boxed Treiber stack)
+          seen,      \* every address ever handed out (and not given back to the system by clear)
+          nodes,     \* heap nodes of an internal list that currently exist (boxed Treiber stack)
+          big,       \* addresses handed out in a size class the pool does not recycle (bump only)
+          cnt        \* what the users did: na successful allocations, nr refused ones, nf frees,
+                     \* nfbig frees of non-recycled blocks, maxlive = most blocks owned at one instant
+pvars == <<owner, seen, nodes, big, cnt>>
 
-PoInit == owner = [x \in {} |-> 0] /\ seen = {} /\ nodes = {}
+ZeroCnt == [na |-> 0, nr |-> 0, nf |-> 0, nfbig |-> 0, maxlive |-> 0]
+PoReset == owner = [x \in {} |-> 0] /\ seen = {} /\ nodes = {} /\ big = {} /\ cnt = ZeroCnt
+PoResetNext == owner' = [x \in {} |-> 0] /\ seen' = {} /\ nodes' = {} /\ big' = {} /\ cnt' = ZeroCnt
+PoInit == PoReset
 
-(* allocate returned address a to thread t: nobody may own a *)
-AllocOk(t, a) ==
-    /\ a \notin DOMAIN owner
-    /\ owner' = [x \in DOMAIN owner \cup {a} |-> IF x = a THEN t ELSE owner[x]]
-    /\ seen' = seen \cup {a}
+Range(s) == { s[i] : i \in 1..Len(s) }
+Max(a, b) == IF a >= b THEN a ELSE b
+Live == Cardinality(DOMAIN owner)
+
+(* one call returned the addresses `addrs` to thread t (rcs[i]: block i belongs to a class the   *)
+(* pool recycles).  Nobody may own any of them, they are pairwise distinct, and a pool of fixed   *)
+(* capacity cap (0 = not fixed) never has more than cap blocks out at one instant.                *)
+AllocBulkOk(t, addrs, rcs, cap) ==
+    LET S == Range(addrs) IN
+    /\ Len(addrs) = Cardinality(S)
+    /\ S \cap DOMAIN owner = {}
+    /\ cap > 0 => Live + Len(addrs) <= cap
+    /\ owner' = [x \in DOMAIN owner \cup S |-> IF x \in S THEN t ELSE owner[x]]
+    /\ seen' = seen \cup S
+    /\ big' = big \cup { addrs[i] : i \in { j \in 1..Len(addrs) : ~rcs[j] } }
+    /\ cnt' = [cnt EXCEPT !.na = @ + Len(addrs), !.maxlive = Max(@, Live + Len(addrs))]
     /\ UNCHANGED nodes
+(* allocate returned address a to thread t *)
+AllocOk(t, a, rc, cap) == AllocBulkOk(t, <<a>>, <<rc>>, cap)
 (* allocate refused (pool exhausted, retries exceeded): always acceptable *)
-AllocRefused(t) == UNCHANGED <<owner, seen, nodes>>
+AllocRefused(t) == cnt' = [cnt EXCEPT !.nr = @ + 1] /\ UNCHANGED <<owner, seen, nodes, big>>
 (* thread t starts freeing a: it must own it *)
 FreeStart(t, a) ==
     /\ a \in DOMAIN owner /\ owner[a] = t
     /\ owner' = [x \in DOMAIN owner \ {a} |-> owner[x]]
-    /\ UNCHANGED <<seen, nodes>>
+    /\ cnt' = [cnt EXCEPT !.nf = @ + 1, !.nfbig = @ + (IF a \in big THEN 1 ELSE 0)]
+    /\ UNCHANGED <<seen, nodes, big>>
 (* the free call returned: freeing a block one owns must succeed *)
-FreeDone(t, ok) == ok /\ UNCHANGED <<owner, seen, nodes>>
+FreeDone(t, ok) == ok /\ UNCHANGED pvars
+
+(* clear() returned: the pool gave its cached free blocks back to the system.  Blocks owned at    *)
+(* that moment are untouched (they are still expected back after their free); the others need not  *)
+(* come out of the pool again.                                                                      *)
+ClearDone(ok) == IF ok THEN seen' = DOMAIN owner /\ UNCHANGED <<owner, nodes, big, cnt>>
+                       ELSE UNCHANGED pvars
+(* validate() of the pool / of an owned block: the structures are well formed *)
+Validate(ok) == ok /\ UNCHANGED pvars
 
 (* internal list nodes (hook sites tb.push.alloc / tb.pop.freed / tb.pop.next) *)
-NodeAlloc(n) == nodes' = nodes \cup {n} /\ UNCHANGED <<owner, seen>>
-NodeFree(n) == n \in nodes /\ nodes' = nodes \ {n} /\ UNCHANGED <<owner, seen>>
+NodeAlloc(n) == nodes' = nodes \cup {n} /\ UNCHANGED <<owner, seen, big, cnt>>
+NodeFree(n) == n \in nodes /\ nodes' = nodes \ {n} /\ UNCHANGED <<owner, seen, big, cnt>>
 (* NoDanglingDeref: a node is dereferenced only while it exists *)
-NodeDeref(n) == n \in nodes /\ UNCHANGED <<owner, seen, nodes>>
+NodeDeref(n) == n \in nodes /\ UNCHANGED pvars
 
 (* quiescence: every thread finished and freed what it held; the harness then drains the pool   *)
 (* by allocating `drained` (a sequence of addresses).  Nothing is owned, no address comes out    *)
-(* twice, and (pools that recycle every freed block through one shared structure) every block    *)
-(* ever handed out comes out again: none was lost.                                               *)
-Range(s) == { s[i] : i \in 1..Len(s) }
-Drain(drained, recycles) ==
+(* twice, (pools that recycle every freed block through one shared structure) every recycled     *)
+(* block ever handed out comes out again: none was lost, and a pool of fixed capacity does not   *)
+(* hold more blocks than its capacity.                                                           *)
+Drain(drained, recycles, cap) ==
     /\ DOMAIN owner = {}
     /\ Len(drained) = Cardinality(Range(drained))
-    /\ recycles => seen \subseteq Range(drained)
-    /\ UNCHANGED <<owner, seen, nodes>>
-(* counters reported by the pool at quiescence: allocations - deallocations = blocks still owned *)
-Counters(allocs, deallocs) ==
-    /\ allocs >= deallocs
-    /\ allocs - deallocs = Cardinality(DOMAIN owner)
-    /\ UNCHANGED <<owner, seen, nodes>>
+    /\ recycles => (seen \ big) \subseteq Range(drained)
+    /\ cap > 0 => Len(drained) <= cap
+    /\ UNCHANGED pvars
+
+(* counters reported by the pool once all threads have finished; c is a record, every pool      *)
+(* reports the fields it has:                                                                    *)
+(*   allocs, deallocs   operations served: allocs - deallocs = blocks still owned, and every     *)
+(*                      free was counted once                                                    *)
+(*   active, peak       blocks out now / most blocks out at one instant                          *)
+(*   hits, misses       every allocation is one or the other                                     *)
+(*   dfree, corrupt     double frees / corruptions the pool believes it saw: nobody did that      *)
+(*   used, frag         bytes carved from the arena / bytes on the free lists (five-level pools): *)
+(*                      equal when nothing is owned                                               *)
+(*   hugefrees          frees of non-recycled (huge / skip-list) blocks                           *)
+(*   pushes, pops       free-list operations (LockFreeMemoryPool fast bins): what was pushed and  *)
+(*                      not popped are the recycled blocks nobody owns                            *)
+(*   allocated, csz, chunks   bytes held from the system = chunk size * (cached + owned chunks)   *)
+F(c, f) == f \in DOMAIN c
+Counters(c, cap) ==
+    /\ (F(c, "allocs") /\ F(c, "deallocs")) =>
+          /\ c.allocs >= c.deallocs
+          /\ c.allocs - c.deallocs = Live
+          /\ c.deallocs = cnt.nf
+    /\ F(c, "active") => c.active = Live
+    /\ F(c, "peak") => cnt.maxlive <= c.peak /\ (cap > 0 => c.peak <= cap)
+    /\ (F(c, "hits") /\ F(c, "misses") /\ F(c, "allocs")) => c.hits + c.misses = c.allocs
+    /\ F(c, "dfree") => c.dfree = 0
+    /\ F(c, "corrupt") => c.corrupt = 0
+    /\ (F(c, "used") /\ F(c, "frag")) => (Live = 0 => c.used = c.frag)
+    /\ F(c, "hugefrees") => c.hugefrees = cnt.nfbig
+    /\ (F(c, "pushes") /\ F(c, "pops")) =>
+          /\ c.pushes >= c.pops
+          /\ c.pushes - c.pops + Cardinality(DOMAIN owner \ big) = Cardinality(seen \ big)
+    /\ (F(c, "allocated") /\ F(c, "csz") /\ F(c, "chunks")) => c.allocated = c.csz * (c.chunks + Live)
+    /\ UNCHANGED pvars
 =============================================================================
